@@ -494,6 +494,7 @@ def run(chk, F):
         "produce equal output are not decided",
     ]
     rule_r14(chk, F)
+    rule_r18(chk, F)
     from rules import c02_modewidth
     c02_modewidth.run(chk, F)
     from rules import a64; a64.run_c02(chk, F)  # noqa: E702  arm64 siblings (aarch64 fact set)
@@ -515,3 +516,46 @@ def rule_r14(chk, F):
     except Exception as e:                                       # noqa: BLE001
         r.observe("aarch64 facts unavailable: %s" % e)
     r.floor("pass-through wrappers (x64 build)", n, 40)
+
+
+def rule_r18(chk, F):
+    """C02.R18: the baseline calling convention passes the address of a multi-field result in the first integer
+    parameter register.  Every routine that *assigns* argument positions against the integer parameter registers from
+    scratch — the call-site argument store, the call-site stack-size computation, the callee's parameter spill — must
+    account for that slot; helpers that continue a caller's cursor (they take it by `&mut usize`) inherit it.  A routine
+    that forgets it is consistent with itself but not with its siblings: one more argument is spilled than stack space
+    was reserved for (the caller's lowest frame slot is overwritten), or parameters are read from the wrong place."""
+    r = chk.rule("C02.R18", "every baseline routine that lays out call arguments against the integer parameter "
+                            "registers from scratch accounts for the hidden result address (siblings: argument store, "
+                            "stack-size computation, parameter spill)")
+    cc = F.crate("dora_cannon_compiler")
+    hidden = [p for p in cc.hir if p.endswith("::has_hidden_result_address")]
+    if not r.anchor("CannonCodeGen::has_hidden_result_address", hidden):
+        return
+    n = 0
+    for p, b in sorted(cc.hir.items()):
+        if "codegen::CannonCodeGen" not in p or p in hidden:
+            continue
+        # uses the number of integer parameter registers
+        uses = any(m[0] == "mcall" and m[3] == "len" and hirq.is_node(hirq.strip(m[4])) and
+                   hirq.strip(m[4])[0] == "def" and last(hirq.strip(m[4])[2]) == "REG_PARAMS"
+                   for m in hirq.walk(b["body"]))
+        if not uses:
+            continue
+        continues_cursor = any(ty.replace(" ", "") in ("&mutusize",) for (_pat, ty) in b["params"])
+        consults = any((m[0] == "mcall" and m[2] in hidden) or
+                       (m[0] == "call" and hirq.is_node(m[2]) and m[2][:2] == ["def", "fn"] and m[2][2] in hidden)
+                       for m in hirq.walk(b["body"]))
+        n += 1
+        r.instance(p, nontrivial=not continues_cursor,
+                   sample={"routine": last(p), "continues_a_callers_cursor": continues_cursor,
+                           "consults_hidden_result_address": consults})
+        if not continues_cursor and not consults:
+            r.violation("%s:hidden-result-address-not-counted" % p,
+                        "%s assigns argument positions against REG_PARAMS from scratch without consulting "
+                        "has_hidden_result_address, unlike its siblings: for a callee that returns a multi-field "
+                        "tuple/struct every integer argument is shifted by one register, so this routine's count is "
+                        "off by one (e.g. the reserved stack-argument area is 8 bytes too small and the extra spilled "
+                        "argument overwrites the caller's lowest frame slot)" % last(p),
+                        "%s:%d" % (b["file"], b["line"]))
+    r.floor("routines that use the number of integer parameter registers", n, 6)
